@@ -155,5 +155,6 @@ pub fn run(o: &Opts) -> Report {
         let model = driver_batch(&o.driver, &reqs, o.par);
         for ((req, m), i) in reqs.iter().zip(model.iter()).zip(impls.iter()) { if m != i { rep.disagree("parse", req, m, i); } }
     }
+    crate::pcorr::run_generic(&mut rep, o, 0xC09);
     rep
 }
